@@ -9,9 +9,50 @@ let rec pos_of_int (n : int) : positive =
   else XI (pos_of_int (n lsr 1))
 let z_of_int (n : int) : z =
   if n = 0 then Z0 else if n > 0 then Zpos (pos_of_int n) else Zneg (pos_of_int (- n))
+
+(* arbitrary size, for the rare numbers that do not fit an OCaml int (u64 bit patterns):
+   decimal digit arrays, least significant first *)
+let dec_of_pos (p : positive) : string =
+  (* bits most significant first *)
+  let rec bits p acc = match p with XH -> 1 :: acc | XO q -> bits q (0 :: acc) | XI q -> bits q (1 :: acc) in
+  let bl = bits p [] in
+  let digits = ref [| 0 |] in
+  List.iter (fun b ->
+    let d = !digits in
+    let n = Array.length d in
+    let carry = ref b in
+    for i = 0 to n - 1 do
+      let v = d.(i) * 2 + !carry in
+      d.(i) <- v mod 10; carry := v / 10
+    done;
+    if !carry > 0 then digits := Array.append d [| !carry |]) bl;
+  let d = !digits in
+  String.init (Array.length d) (fun i -> Char.chr (48 + d.(Array.length d - 1 - i)))
+let rec pos_small (p : positive) (depth : int) : bool =
+  depth < 61 && (match p with XH -> true | XO q | XI q -> pos_small q (depth + 1))
 let rec int_of_pos = function
   | XH -> 1 | XO p -> 2 * int_of_pos p | XI p -> 2 * int_of_pos p + 1
-let int_of_z = function Z0 -> 0 | Zpos p -> int_of_pos p | Zneg p -> - (int_of_pos p)
+let string_of_pos p = if pos_small p 0 then string_of_int (int_of_pos p) else dec_of_pos p
+let string_of_z = function Z0 -> "0" | Zpos p -> string_of_pos p | Zneg p -> "-" ^ string_of_pos p
+
+(* decimal string -> positive for long literals: repeated halving of the digit array *)
+let pos_of_dec (s : string) : positive =
+  let d = Array.init (String.length s) (fun i -> Char.code s.[i] - 48) in (* most significant first *)
+  let is_zero () = Array.for_all (fun x -> x = 0) d in
+  let halve () = (* returns remainder *)
+    let r = ref 0 in
+    Array.iteri (fun i x -> let v = !r * 10 + x in d.(i) <- v / 2; r := v mod 2) d; !r in
+  let bits = ref [] in (* least significant first *)
+  while not (is_zero ()) do bits := halve () :: !bits done;
+  (* !bits is most significant first *)
+  match !bits with
+  | [] -> failwith "zero"
+  | _ :: rest -> List.fold_left (fun acc b -> if b = 1 then XI acc else XO acc) XH rest
+let z_of_string (s : string) : z =
+  let neg = String.length s > 0 && s.[0] = '-' in
+  let body = if neg then String.sub s 1 (String.length s - 1) else s in
+  if String.length body <= 17 then z_of_int (int_of_string s)
+  else let p = pos_of_dec body in if neg then Zneg p else Zpos p
 
 (* parser *)
 let parse (s : string) : sexp =
@@ -31,13 +72,13 @@ let parse (s : string) : sexp =
     end else begin
       let j = !i in
       while !i < n && s.[!i] <> ' ' && s.[!i] <> '(' && s.[!i] <> ')' do incr i done;
-      A (z_of_int (int_of_string (String.sub s j (!i - j))))
+      A (z_of_string (String.sub s j (!i - j)))
     end
   in item ()
 
 let rec print (b : Buffer.t) (x : sexp) : unit =
   match x with
-  | A z -> Buffer.add_string b (string_of_int (int_of_z z))
+  | A z -> Buffer.add_string b (string_of_z z)
   | L l ->
     Buffer.add_char b '(';
     List.iteri (fun k y -> if k > 0 then Buffer.add_char b ' '; print b y) l;
